@@ -235,7 +235,8 @@ def run(ctx: core.Ctx):
                lambda: fl.Ramp("e", lo2 + 0.9 * w2, lo2 + 0.2 * w2)]
         agg2 = fl.Aggregated("o", lo2, hi2, ag(), [fl.Activated(mk2[t](), d, im()) for t, d in zip(tsel, degs)])
         c2 = float(np.asarray(fl.Centroid(res).defuzzify(agg2, lo2, hi2)))
-        if not feq(c2, v1["Centroid"] + c, 1e-6 * max(1.0, abs(lo), abs(hi)) / 1.0) and not (math.isnan(c2) and math.isnan(v1["Centroid"])):
+        # a sample point may sit on the edge of the Rectangle (index 1) and move across it by rounding when shifted: only continuous sets are compared
+        if 1 not in tsel and not feq(c2, v1["Centroid"] + c, 1e-6 * max(1.0, abs(lo), abs(hi)) / 1.0) and not (math.isnan(c2) and math.isnan(v1["Centroid"])):
             ctx.violation("relations/Centroid/translation", dict(case, shift=c), v1["Centroid"] + c, c2)
     ctx.exhaustive = True
     ctx.rule = (f"TLC enumerates sets of 0..{ml} activated terms over 5 terms x 4 degrees x 3 implications x 3 aggregations x 4 resolutions (replayed to 2 terms"
